@@ -128,25 +128,8 @@ func (e *env) open(fs storage.FileSystem, hs []recovery.CheckpointHandle) *dkv.D
 
 func (e *env) close() {
 	e.sched.ReleaseAll()
-	if e.db != nil {
-		done := make(chan error, 1)
-		go func() { done <- e.db.WaitOnTasks() }()
-		select {
-		case <-done:
-		case <-time.After(watchdog):
-		}
-	}
 	// nothing may outlive the case: drain the tasks of every database it created
-	for _, p := range e.pinned {
-		if db, ok := p.(*dkv.DB); ok {
-			d := make(chan error, 1)
-			go func() { d <- db.WaitOnTasks() }()
-			select {
-			case <-d:
-			case <-time.After(watchdog):
-			}
-		}
-	}
+	lib.DKVIdle(watchdog)
 	e.sched.Uninstall()
 	vhook.SetTuning(nil)
 	runtime.KeepAlive(e.pinned)
@@ -315,15 +298,12 @@ func (e *env) randomRead() {
 // waitTasks waits for background tasks of the primary db (watchdog → inconclusive).
 func (e *env) waitTasks() {
 	e.logOp("wait-on-tasks")
-	done := make(chan error, 1)
-	go func() { done <- e.db.WaitOnTasks() }()
-	select {
-	case err := <-done:
-		if err != nil {
-			e.c.Fail("background-task-error", e.wit(), "WaitOnTasks: %v", err)
-		}
-	case <-time.After(watchdog):
+	idle, err := lib.WaitDB(e.db, watchdog)
+	if !idle {
 		e.c.Inconclusive("background tasks did not finish within the watchdog")
+	}
+	if err != nil {
+		e.c.Fail("background-task-error", e.wit(), "WaitOnTasks: %v", err)
 	}
 }
 
